@@ -288,6 +288,7 @@ func runC06(r *rep.Report, thorough bool) error {
 				}
 			}
 			for _, dd := range env.Decls {
+				implDecl := dd
 				if sd := specDecl[dd.Q]; sd != nil && sd.Kind == dd.Kind {
 					dd = sd
 				}
@@ -297,7 +298,13 @@ func runC06(r *rep.Report, thorough bool) error {
 					continue
 				}
 				for _, txt := range ro.decls[strings.ToUpper(dd.Name[:1])+dd.Name[1:]] {
-					if msg := c06Oracle(env, dd, txt); msg != "" {
+					msg := c06Oracle(env, dd, txt)
+					// an enum converted by position lists its constants in the order the analysis hands
+					// them over: that order too has to be the order of the values
+					if msg == "" && dd.Kind == "enum" && implDecl != dd {
+						msg = c06Oracle(env, implDecl, txt)
+					}
+					if msg != "" {
 						r.Fail(rep.Failure{Signature: "c06:" + dd.Kind + "-routine-vs-go" + c06Shape(env), What: "Dart declaration of " + dd.Q + ": " + msg, Input: in, Observed: txt})
 					}
 				}
